@@ -271,6 +271,13 @@ class NestedDictRAMDataStore(datastore.DataStore):
     resource = resources.SuggestionOperationResource.from_name(operation.name)
     with self._lock:
       if (
+          resource.owner_id not in self._owners
+          or resource.study_id not in self._owners[resource.owner_id].studies
+      ):
+        raise custom_errors.NotFoundError(
+            'Study does not exist for operation:', operation.name
+        )
+      if (
           resource.client_id
           not in self._owners[resource.owner_id]
           .studies[resource.study_id]
@@ -386,11 +393,16 @@ class NestedDictRAMDataStore(datastore.DataStore):
         operation.name
     )
     with self._lock:
-      early_stopping_ops = (
-          self._owners[resource.owner_id]
-          .studies[resource.study_id]
-          .early_stopping_operations
-      )
+      try:
+        early_stopping_ops = (
+            self._owners[resource.owner_id]
+            .studies[resource.study_id]
+            .early_stopping_operations
+        )
+      except KeyError as err:
+        raise custom_errors.NotFoundError(
+            'Study does not exist for operation:', operation.name
+        ) from err
       if resource.operation_id in early_stopping_ops:
         raise custom_errors.AlreadyExistsError(
             'Operation already exists:', resource.operation_id
